@@ -1122,16 +1122,22 @@ decl(struct scope *s, struct func *f)
 struct decl *
 stringdecl(struct expr *expr)
 {
-	static struct map strings;
+	/* one pool per element size, so that literals of different types never share an object */
+	static struct map pools[5];
+	struct map *strings;
 	struct mapkey key;
 	void **entry;
 	struct decl *d;
+	size_t w;
 
-	if (!strings.len)
-		mapinit(&strings, 64);
 	assert(expr->kind == EXPRSTRING);
-	mapkey(&key, expr->u.string.data, expr->u.string.size);
-	entry = mapput(&strings, &key);
+	w = expr->type->base->size;
+	assert(w < LEN(pools));
+	strings = &pools[w];
+	if (!strings->cap)
+		mapinit(strings, 64);
+	mapkey(&key, expr->u.string.data, expr->u.string.size * w);
+	entry = mapput(strings, &key);
 	d = *entry;
 	if (!d) {
 		d = mkdecl("string", DECLOBJECT, expr->type, QUALNONE, LINKNONE);
